@@ -285,7 +285,10 @@ func (c *SessionCache) InvalidateExpired() int {
 	count := 0
 
 	for id, entry := range c.sessions {
-		if !entry.expiration.IsZero() && now.After(entry.expiration) {
+		// Read through the locked accessor: RenewLease rewrites the expiration
+		// under the entry's own lock, concurrently with this sweep.
+		expiration := entry.Expiration()
+		if !expiration.IsZero() && now.After(expiration) {
 			delete(c.sessions, id)
 			count++
 		}
@@ -319,8 +322,8 @@ func (c *SessionCache) DebugDump() string {
 	b.WriteString("sessions:\n")
 	for id, entry := range c.sessions {
 		exp := "never"
-		if !entry.expiration.IsZero() {
-			exp = entry.expiration.Format(time.RFC3339Nano)
+		if expiration := entry.Expiration(); !expiration.IsZero() {
+			exp = expiration.Format(time.RFC3339Nano)
 		}
 		fmt.Fprintf(&b, "- id=%s addr=%s tag=%s lease=%s exp=%s\n", id, entry.addr, entry.tag, entry.lease, exp)
 	}
